@@ -206,3 +206,8 @@ def run(facts, rep, tier):
     rule_r3(facts, rep)
     rep.rule("C13-R4", "Position's ordering is line-major: it is derived, so the struct's field order (line, character) IS the comparison order that Range<Position>::contains relies on.")
     rule_r4(facts, rep)
+    rep.rule("C13-R5", "= C04-R3 for the line table: the block under the cursor is looked up in Graph.nodes_map[key], which the single-key update must replace (not extend) - otherwise a line "
+             "that no longer holds a block still answers with a block of an earlier version.")
+    from . import c04
+    from .c01 import _Only
+    c04.rule_r3(facts, _Only(rep, "cache:nodes_map"), "C13-R5")
